@@ -20,6 +20,9 @@ pub enum Delay {
     Immediate,
     /// delay_fn: delay (ms) before attempt k = table[k-1] (last entry repeats)
     PerAttempt(Vec<u64>),
+    /// builder.delay(Duration::from_micros(us)) with 0 < us < 1000: not "no delay"; on the
+    /// whole-millisecond grid of the virtual clock the next attempt starts 1 ms later at the earliest
+    FixedMicros(u32),
 }
 
 #[derive(Clone, Debug, Serialize, Deserialize)]
@@ -54,6 +57,7 @@ fn case_strategy(_tier: Tier) -> BoxedStrategy<HedgeCase> {
         3 => prop_oneof![Just(10u64), (1u64..=10).prop_map(|k| k * 10), 1u64..=100].prop_map(Delay::Fixed),
         1 => Just(Delay::Fixed(0)),
         1 => Just(Delay::Immediate),
+        1 => prop_oneof![Just(1u32), Just(500u32), Just(999u32), 1u32..=999].prop_map(Delay::FixedMicros),
         3 => prop::collection::vec(prop_oneof![2 => Just(0u64), 2 => (1u64..=5).prop_map(|k| k * 10), 1 => 1u64..=60], 1..=4)
             .prop_map(Delay::PerAttempt),
     ];
@@ -110,6 +114,7 @@ fn delay_ms(d: &Delay, k: usize) -> u64 {
     match d {
         Delay::Fixed(ms) => *ms,
         Delay::Immediate => 0,
+        Delay::FixedMicros(_) => 1,
         Delay::PerAttempt(v) => *v.get(k - 1).or(v.last()).unwrap_or(&0),
     }
 }
@@ -141,6 +146,7 @@ async fn interp(case: &HedgeCase) -> Verdict {
     b = match &case.delay {
         Delay::Fixed(ms) => b.delay(Duration::from_millis(*ms)),
         Delay::Immediate => b.no_delay(),
+        Delay::FixedMicros(us) => b.delay(Duration::from_micros(*us as u64)),
         Delay::PerAttempt(v) => {
             let v = v.clone();
             b.delay_fn(move |k| {
